@@ -495,7 +495,7 @@ func (e *Exec) concreteString(s Slice) (string, bool) {
 	n := int(s.Len.V)
 	b := make([]byte, n)
 	for i := 0; i < n; i++ {
-		c, ok := s.St.peek(s.Off + i).(sym.Sc)
+		c, ok := s.St.peek(e.o(s) + i).(sym.Sc)
 		if !ok || !c.K {
 			return "", false
 		}
